@@ -1,7 +1,8 @@
 #!/venv/bin/python
 """Regenerate /verif/c16_baseline.json: the nodes of the default targets' graph that the verified
-sign analysis proves finite and non-negative at EVERY date class >= 2015 at which they exist.
-Run by hand after deliberate changes of the analysis; the check never writes this file."""
+abstract interpreter (Absint.v) proves FINITE, and those it proves finite and NON-NEGATIVE, at EVERY
+dumped date >= 2015 at which they exist.  Run by hand after deliberate changes of the analysis; the
+check never writes this file."""
 import json
 import sys
 from pathlib import Path
@@ -11,20 +12,20 @@ import common as C
 import coqrun
 import metam
 
-PRELUDE = ("From GettsimModel Require Import Dag ChkC16 Corr.\nFrom GettsimGen Require Import GenRules GenYaml GenDag GenConfig.\n"
+PRELUDE = ("From GettsimModel Require Import Dag ChkC16 Corr Absint.\nFrom GettsimGen Require Import GenRules GenYaml GenDag GenConfig.\n"
            "Definition PA := params_at yaml_groups internal_params_groups.\n")
 ds = [d for d in metam.dag_dates() if d >= 735599]
-exprs = [f'match find (fun od => Z.eqb (fst od) {d}) dags, PA {d} with Some od, Ok p => String.concat ";" (nn_nodes all_fundefs p (inputs_nonneg dag_data_cols) '
-         f'(subgraph (snd od) default_targets) []) ++ "|" ++ String.concat ";" (map d_name (subgraph (snd od) default_targets)) | _, _ => "ERR" end' for d in ds]
+exprs = [f'match find (fun od => Z.eqb (fst od) {d}) dags, PA {d} with Some od, Ok p => let K := a_nodes all_fundefs p dag_data_cols '
+         f'(subgraph (snd od) default_targets) [] in String.concat ";" (nodes_with a_nn K) ++ "|" ++ String.concat ";" (nodes_with a_fin K) ++ "|" ++ '
+         f'String.concat ";" (map fst K) | _, _ => "ERR" end' for d in ds]
 r = coqrun.eval_strings("C16_baseline", PRELUDE + "Open Scope Z_scope.\n", exprs, timeout=1800)
-proved_all, exists_any = None, set()
-never = set()
-for s in r:
-    pr, ex = s.split("|")
-    pr, ex = set(pr.replace(" ", "").split(";")), set(ex.replace(" ", "").split(";"))
-    never |= (ex - pr)
-    exists_any |= ex
-base = sorted(exists_any - never)
-json.dump(dict(note="nodes proved finite and non-negative at every date class >= 2015 where they exist", nodes=base),
-          open(C.VERIF / "c16_baseline.json", "w"), indent=1, ensure_ascii=False)
-print(len(base), "baseline nodes;", len(exists_any), "nodes overall")
+per = {}
+tot_nn = tot_fin = tot = 0
+for d, line in zip(ds, r):
+    nn, fin, ex = [set(x.replace(" ", "").split(";")) - {""} for x in line.split("|")]
+    per[str(d)] = dict(nn=sorted(nn), fin_only=sorted(fin - nn), not_proved=sorted(ex - fin))
+    tot_nn += len(nn); tot_fin += len(fin); tot += len(ex)
+out = dict(note="per dumped date >= 2015: nodes of the default targets' graph proved finite and non-negative (nn) / finite only (fin_only) / not proved",
+           dates=per)
+json.dump(out, open(C.VERIF / "c16_baseline.json", "w"), indent=0, ensure_ascii=False)
+print(f"{len(ds)} dates; node-dates: {tot}; proved finite {tot_fin}; of these non-negative {tot_nn}")
